@@ -4,7 +4,7 @@ mod verif_rwlock {
     use super::*;
     use shuttle_engine::runtime::execution::verif_exec::{new_store, run_in, state_with, use_store, SpecSched};
     use shuttle_engine::runtime::task::TaskState;
-    use shuttle_engine::verif_support::{fixed_random_state, stub_false, switches, verif_switch};
+    use shuttle_engine::verif_support::{fixed_random_state, stub_false, switches, ts_contains, ts_insert, ts_is_empty, ts_len, ts_remove, verif_switch};
     use std::rc::Rc;
 
     const BLOCKED: TaskState = TaskState::Blocked { allow_spurious_wakeups: false };
@@ -53,6 +53,10 @@ mod verif_rwlock {
         }
     }
 
+    fn ts_contains_me() -> bool {
+        ts_contains(&TaskSet::new(), TaskId::from(0))
+    }
+
     fn try_lock_contract(h: H, typ: RwLockType) {
         let mut store = new_store();
         use_store(&mut store);
@@ -71,6 +75,12 @@ mod verif_rwlock {
         let p = l.semaphore.available_permits();
         if ok {
             assert!(p == permits_for(h) - typ.num_permits());
+            // inv_RW afterwards: the holder agrees with the permits taken
+            match &l.state.borrow().holder {
+                RwLockHolder::Write(w) => assert!(typ == RwLockType::Write && *w == TaskId::from(0)),
+                RwLockHolder::Read(_) => assert!(typ == RwLockType::Read && ts_contains_me() && MAX_READS - p == ts_len()),
+                RwLockHolder::None => assert!(false),
+            }
         } else {
             // a failed attempt leaves the lock unchanged: no permit is consumed
             assert!(p == permits_for(h));
@@ -81,10 +91,14 @@ mod verif_rwlock {
     /// C04.rwlock.try_read [K over the five holder shapes]
     #[kani::proof]
     #[kani::solver(minisat)]
-    #[kani::unwind(20)]
+    #[kani::unwind(6)]
     #[kani::stub(shuttle_engine::runtime::thread::continuation::switch, verif_switch)]
     #[kani::stub(std::hash::RandomState::new, fixed_random_state)]
     #[kani::stub(shuttle_engine::backtrace_enabled, stub_false)]
+    #[kani::stub(shuttle_engine::runtime::task::TaskSet::insert, ts_insert)]
+    #[kani::stub(shuttle_engine::runtime::task::TaskSet::remove, ts_remove)]
+    #[kani::stub(shuttle_engine::runtime::task::TaskSet::contains, ts_contains)]
+    #[kani::stub(shuttle_engine::runtime::task::TaskSet::is_empty, ts_is_empty)]
     fn c04_rwlock_try_read_free_or_other() {
         try_lock_contract(if kani::any() { H::Free } else { H::ReadOther }, RwLockType::Read);
         kani::cover!(true);
@@ -92,10 +106,14 @@ mod verif_rwlock {
 
     #[kani::proof]
     #[kani::solver(minisat)]
-    #[kani::unwind(20)]
+    #[kani::unwind(6)]
     #[kani::stub(shuttle_engine::runtime::thread::continuation::switch, verif_switch)]
     #[kani::stub(std::hash::RandomState::new, fixed_random_state)]
     #[kani::stub(shuttle_engine::backtrace_enabled, stub_false)]
+    #[kani::stub(shuttle_engine::runtime::task::TaskSet::insert, ts_insert)]
+    #[kani::stub(shuttle_engine::runtime::task::TaskSet::remove, ts_remove)]
+    #[kani::stub(shuttle_engine::runtime::task::TaskSet::contains, ts_contains)]
+    #[kani::stub(shuttle_engine::runtime::task::TaskSet::is_empty, ts_is_empty)]
     fn c04_rwlock_try_read_reentrant() {
         try_lock_contract(if kani::any() { H::ReadMe } else { H::ReadBoth }, RwLockType::Read);
         kani::cover!(true);
@@ -103,10 +121,14 @@ mod verif_rwlock {
 
     #[kani::proof]
     #[kani::solver(minisat)]
-    #[kani::unwind(20)]
+    #[kani::unwind(6)]
     #[kani::stub(shuttle_engine::runtime::thread::continuation::switch, verif_switch)]
     #[kani::stub(std::hash::RandomState::new, fixed_random_state)]
     #[kani::stub(shuttle_engine::backtrace_enabled, stub_false)]
+    #[kani::stub(shuttle_engine::runtime::task::TaskSet::insert, ts_insert)]
+    #[kani::stub(shuttle_engine::runtime::task::TaskSet::remove, ts_remove)]
+    #[kani::stub(shuttle_engine::runtime::task::TaskSet::contains, ts_contains)]
+    #[kani::stub(shuttle_engine::runtime::task::TaskSet::is_empty, ts_is_empty)]
     fn c04_rwlock_try_read_while_written() {
         try_lock_contract(H::WriteOther, RwLockType::Read);
         kani::cover!(true);
@@ -114,10 +136,14 @@ mod verif_rwlock {
 
     #[kani::proof]
     #[kani::solver(minisat)]
-    #[kani::unwind(20)]
+    #[kani::unwind(6)]
     #[kani::stub(shuttle_engine::runtime::thread::continuation::switch, verif_switch)]
     #[kani::stub(std::hash::RandomState::new, fixed_random_state)]
     #[kani::stub(shuttle_engine::backtrace_enabled, stub_false)]
+    #[kani::stub(shuttle_engine::runtime::task::TaskSet::insert, ts_insert)]
+    #[kani::stub(shuttle_engine::runtime::task::TaskSet::remove, ts_remove)]
+    #[kani::stub(shuttle_engine::runtime::task::TaskSet::contains, ts_contains)]
+    #[kani::stub(shuttle_engine::runtime::task::TaskSet::is_empty, ts_is_empty)]
     fn c04_rwlock_try_write() {
         let h = match kani::any::<u8>() % 4 { 0 => H::Free, 1 => H::WriteOther, 2 => H::ReadOther, _ => H::ReadMe };
         try_lock_contract(h, RwLockType::Write);
